@@ -32,6 +32,7 @@ class HAProxyProtocolWrapper(policies.ProtocolWrapper):
         super().__init__(factory, wrappedProtocol)
         self._proxyInfo: Optional[_info.ProxyInfo] = None
         self._parser: Union[V2Parser, V1Parser, None] = None
+        self._undecided = b""
 
     def dataReceived(self, data: bytes) -> None:
         if self._proxyInfo is not None:
@@ -39,6 +40,8 @@ class HAProxyProtocolWrapper(policies.ProtocolWrapper):
 
         parser = self._parser
         if parser is None:
+            data = self._undecided + data
+            self._undecided = b""
             if (
                 len(data) >= 16
                 and data[:12] == V2Parser.PREFIX
@@ -47,6 +50,15 @@ class HAProxyProtocolWrapper(policies.ProtocolWrapper):
                 self._parser = parser = V2Parser()
             elif len(data) >= 8 and data[:5] == V1Parser.PROXYSTR:
                 self._parser = parser = V1Parser()
+            elif (
+                len(data) < 16
+                and V2Parser.PREFIX.startswith(data[:12])
+                and (len(data) < 13 or ord(data[12:13]) & 0b11110000 == 0x20)
+            ) or (len(data) < 8 and V1Parser.PROXYSTR.startswith(data[:5])):
+                # Too short to tell the version yet, but still the beginning
+                # of a header: wait for more.
+                self._undecided = data
+                return None
             else:
                 self.loseConnection()
                 return None
